@@ -306,6 +306,28 @@ class BatchAxis:
             return self.memo.get(sig)
         self.seen.add(sig)
         self.fn, self.c, self.r = fn, fn["crate"], Render(fn["crate"])
+        # `as_slice()` / `as_slice_mut()` are `Some` only for the standard layout: used as a fast path with a fallback
+        # (`if let Some(s) = x.as_slice() { .. } else { .. }`, a match with a None arm) they do not make the result
+        # depend on the layout. Unwrapped, they turn a non-contiguous batch into a panic.
+        from .layout import with_parents
+        if not hasattr(self, "guarded_slices"):
+            self.guarded_slices = set()
+        for n_, anc_ in with_parents(fn["body"]):
+            if n_.get("k") == "MethodCall" and n_["name"] in ("as_slice", "as_slice_mut") and anc_:
+                # climb through `(a.as_slice(), b.as_slice())` tuples and refs
+                j = len(anc_) - 1
+                while j >= 0 and anc_[j].get("k") in ("Tup", "Ref"):
+                    j -= 1
+                par = anc_[j] if j >= 0 else None
+                if par is not None and par.get("k") == "Let":
+                    iff = anc_[j - 1] if j >= 1 else None
+                    while iff is not None and iff.get("k") == "Binary" and j >= 2:
+                        j -= 1
+                        iff = anc_[j - 1]
+                    if iff is not None and iff.get("k") == "If" and iff.get("else") is not None:
+                        self.guarded_slices.add(id(n_))
+                if par is not None and par.get("k") == "Match" and par.get("src", "Normal") == "Normal" and len(par["arms"]) >= 2:
+                    self.guarded_slices.add(id(n_))
         env = dict(batch_params)
         self.out = set(out_params)
         self.depth = depth
@@ -380,6 +402,8 @@ class BatchAxis:
                 if strip(x).get("k") == "Closure":
                     self.closure(strip(x), n, env, batch_iter=any(v is not None for v in argax) or self.iter_over_batch(n["recv"], env))
             return self.callee(n, [None] + argax, env)
+        if name in RAW_LAYOUT and id(n) in getattr(self, "guarded_slices", ()):
+            return a
         if name in RAW_LAYOUT:
             rv = peel_refs(n["recv"])
             if rv.get("k") == "Path" and (id(self.fn), rv.get("local")) in self.fresh:
